@@ -141,6 +141,68 @@ example : F64.Canonical (.fin true 1 (-1074)) ∧ F64.Canonical (.fin false (2 ^
   refine ⟨Or.inr (Or.inr ⟨by decide, by decide, rfl⟩), Or.inr (Or.inl ⟨by decide, by decide, by decide, by decide⟩),
     Or.inl ⟨rfl, rfl⟩⟩
 
+/-- every value `float()` produces is a value of the binary64 format -/
+theorem toF64_canonical (l : FloatLit) : l.toF64.Canonical := by
+  cases l with
+  | fin neg c x => exact roundDecimal_canonical neg c x
+  | inf neg => trivial
+  | nan => trivial
+
+/-- the wire form `FloatConverter.serialize` writes for a double is read by `float()` as a
+literal that rounds to the same double -/
+theorem float_ser_reads_back (e : Env) (x : F64) (hx : x.Canonical) :
+    ∃ lit, pyFloatLit e (floatSerialize ⟨x.repr⟩) = some lit ∧ lit.toF64 = x := by
+  have acc : ∀ t lit, XsdDouble t lit → pyFloatLit e t = some lit := by
+    intro t lit ht
+    have := float_accepts e [] [] t lit (by intro c h; cases h) (by intro c h; cases h) ht
+    simpa using this
+  have hrt := float_repr_rt e x hx
+  cases x with
+  | fin neg m q =>
+    obtain ⟨lit, hshape⟩ := model_repr_shape neg m q
+    obtain ⟨h1, h2⟩ := float_rt e _ lit hshape
+    rw [h2] at hrt
+    exact ⟨lit, h1, by simpa using hrt⟩
+  | inf neg =>
+    cases neg
+    · have h1 : floatSerialize ⟨F64.repr (.inf false)⟩ = ['I', 'N', 'F'] := by decide
+      exact ⟨.inf false, by rw [h1]; exact acc _ _ (Or.inr (by decide)), rfl⟩
+    · have h1 : floatSerialize ⟨F64.repr (.inf true)⟩ = ['-', 'I', 'N', 'F'] := by decide
+      exact ⟨.inf true, by rw [h1]; exact acc _ _ (Or.inr (by decide)), rfl⟩
+  | nan =>
+    have h1 : floatSerialize ⟨F64.repr .nan⟩ = ['N', 'a', 'N'] := by decide
+    exact ⟨.nan, by rw [h1]; exact acc _ _ (Or.inr (by decide)), rfl⟩
+
+/-- **`FloatConverter`: deserialize ∘ serialize is the identity on every float the converter can
+return** — with `repr` and `float()` both computed in the model (`ModelFloat`), no hypothesis about
+the value: whatever string `s` was read (any spelling Python accepts, any magnitude — overflow to
+`inf`, underflow to a subnormal or zero, `-0`, `nan`), writing the float and reading the written
+form yields the same float (the same double; `nan` as `nan`). -/
+theorem float_de_ser_de (e : CEnv) (hm : ModelFloat e) (s : Str) (f : PyFloat)
+    (h : floatDeserialize e s = some f) :
+    floatDeserialize e (floatSerialize f) = some f := by
+  unfold floatDeserialize at h
+  cases hl : pyFloatLit e.toEnv s with
+  | none => simp [hl] at h
+  | some l =>
+    simp only [hl, Option.some.injEq] at h
+    have hrepr : f.repr = l.toF64.repr := by
+      rw [← h]; simp [hm s, pyFloatReprD, pyFloatRepr, hl]
+    have hf : f = ⟨l.toF64.repr⟩ := by cases f; simp_all
+    obtain ⟨lit, h1, h2⟩ := float_ser_reads_back e.toEnv l.toF64 (toF64_canonical l)
+    rw [hf]
+    unfold floatDeserialize
+    simp only [h1, hm _, pyFloatReprD, pyFloatRepr, Option.map_some, Option.getD_some, h2]
+
+/-- the hypotheses are met by the driver's environment: `-0`, an overflowing and a subnormal
+literal are deserialized there -/
+example : ModelFloat (tblCEnv (pyFloatReprD tblEnv)) ∧
+    floatDeserialize (tblCEnv (pyFloatReprD tblEnv)) ['-', '0'] = some ⟨['-', '0', '.', '0']⟩ ∧
+    floatDeserialize (tblCEnv (pyFloatReprD tblEnv)) ['1', 'e', '9', '9', '9'] = some ⟨['i', 'n', 'f']⟩ ∧
+    floatDeserialize (tblCEnv (pyFloatReprD tblEnv)) ['4', 'E', '-', '3', '2', '4'] =
+      some ⟨['5', 'e', '-', '3', '2', '4']⟩ :=
+  ⟨fun _ => rfl, by decide +kernel, by decide +kernel, by decide +kernel⟩
+
 /-- spellings pinned on concrete doubles (kernel-evaluated): `1e22` is `1e+22` in Python and
 `1E22` on the wire; fixed notation up to `1e16`; the smallest subnormal; a power of two, where
 the rounding interval is asymmetric; `0.1`; a halfway case that rounds to even -/
